@@ -39,10 +39,21 @@ theorem ssa_equations_initial (ctx : Ctx) (hm : ∀ f ∈ ctx.mod.funcs, ssaChec
     (fname : String) (args : List Val) (s : State) (h : initState ctx fname args = .ok s) : StateOK ctx s :=
   initState_ok (fun f hf => ssaCheck_facts (hm f hf)) h
 
-/-- **substitution validator** (what `CommonSubexpressionEliminationPass` does, and the `replace_by` half of
-    `ConstantFolder`): if `m'` is `m` with operands replaced by operands that `checkSubst` can justify from
+/-- **typing invariant**: if every function passes `ssaCheck` and `tyCheck` (integer operands of integer
+    binops / phis / returns have the declared integer type, integer-valued calls are direct calls of a
+    subroutine with that result type), then in every reachable state every integer-typed local of every
+    activation holds a value in the range of its type (`TyStateOK`).  Needed for `x + 0 = x`. -/
+theorem typing_invariant (ctx : Ctx)
+    (hm : ∀ f ∈ ctx.mod.funcs, ssaCheck f (computeDoms f) = true ∧ tyCheck ctx.mod f = true)
+    (s t : State) (hs : TyStateOK ctx s) (hstep : step ctx s = .next t) : TyStateOK ctx t :=
+  ty_step (fun f hf => ⟨ssaCheck_facts (hm f hf).1, (hm f hf).2⟩) hs hstep
+
+/-- **substitution validator** (what `CommonSubexpressionEliminationPass`, `RemoveAddZeroPass` (integer types)
+    and the `replace_by` half of `ConstantFolder` do): if `m'` is `m` with operands replaced by operands that `checkSubst` can justify from
     the equations of dominating pure instructions of `m` (same binop on justified-equal operands; equal
-    constants; integer constant expressions with equal value), every defined behaviour is preserved. -/
+    constants; integer constant expressions with equal value; and, when the module passes `tyCheck`,
+    `x := a + 0`, `x := 0 + a`, `x := a * 1` at integer types replaced by `a` — `RemoveAddZeroPass`),
+    every defined behaviour is preserved. -/
 theorem subst_validator_sound (m m' : Module) (h : checkSubst m m' = true) (cfg : Config) :
     Preserves cfg m m' :=
   checkSubst_sound h cfg
@@ -51,5 +62,54 @@ theorem subst_validator_sound (m m' : Module) (h : checkSubst m m' = true) (cfg 
 theorem validators_compose (m m1 m2 : Module) (h1 : checkAlign m m1 = true) (h2 : checkSubst m1 m2 = true)
     (cfg : Config) : Preserves cfg m m2 :=
   (checkAlign_sound h1 cfg).trans (checkSubst_sound h2 cfg)
+
+
+/-! ### non-vacuity: the checkers accept concrete, non-trivial rewrites (kernel-evaluated) -/
+
+private def i32 : Ty := .int .i32
+
+private def mk (instrs : List Instr) : Module :=
+  { name := "m", externs := [], vars := [],
+    funcs := [{ name := "f", isGlobal := true, ret := some i32, entry := "e",
+                params := [("x", i32), ("y", i32)], blocks := [{ name := "e", instrs := instrs }] }] }
+
+/-- an unused constant and an unused addition are deleted -/
+example : checkAlign
+    (mk [.const "c" i32 (.int 5), .binop "u" i32 .add (.loc "x") (.loc "c"), .binop "r" i32 .mul (.loc "x") (.loc "y"), .ret (.loc "r")])
+    (mk [.binop "r" i32 .mul (.loc "x") (.loc "y"), .ret (.loc "r")]) = true := by decide
+
+/-- common subexpression: `b := x + y` is replaced by `a := x + y` in both operand slots of `w` -/
+example : checkSubst
+    (mk [.binop "a" i32 .add (.loc "x") (.loc "y"), .binop "b" i32 .add (.loc "x") (.loc "y"),
+         .binop "w" i32 .mul (.loc "b") (.loc "b"), .ret (.loc "w")])
+    (mk [.binop "a" i32 .add (.loc "x") (.loc "y"), .binop "b" i32 .add (.loc "x") (.loc "y"),
+         .binop "w" i32 .mul (.loc "a") (.loc "a"), .ret (.loc "w")]) = true := by decide
+
+/-- constant folding: `k := 7 % 3` (after insertion of the constant `n := 1`) is replaced by `n` -/
+example : checkSubst
+    (mk [.const "c7" i32 (.int 7), .const "c3" i32 (.int 3), .const "n" i32 (.int 1),
+         .binop "k" i32 .rem (.loc "c7") (.loc "c3"), .binop "r" i32 .add (.loc "x") (.loc "k"), .ret (.loc "r")])
+    (mk [.const "c7" i32 (.int 7), .const "c3" i32 (.int 3), .const "n" i32 (.int 1),
+         .binop "k" i32 .rem (.loc "c7") (.loc "c3"), .binop "r" i32 .add (.loc "x") (.loc "n"), .ret (.loc "r")]) = true := by
+  decide
+
+/-- a wrongly folded constant (floor-mod: `-7 % 3 = 2`) is rejected -/
+example : checkSubst
+    (mk [.const "c7" i32 (.int (-7)), .const "c3" i32 (.int 3), .const "n" i32 (.int 2),
+         .binop "k" i32 .rem (.loc "c7") (.loc "c3"), .binop "r" i32 .add (.loc "x") (.loc "k"), .ret (.loc "r")])
+    (mk [.const "c7" i32 (.int (-7)), .const "c3" i32 (.int 3), .const "n" i32 (.int 2),
+         .binop "k" i32 .rem (.loc "c7") (.loc "c3"), .binop "r" i32 .add (.loc "x") (.loc "n"), .ret (.loc "r")]) = false := by
+  decide
+
+/-- `x + 0` is replaced by `x` (needs the typing invariant) -/
+example : checkSubst
+    (mk [.const "z" i32 (.int 0), .binop "a" i32 .add (.loc "x") (.loc "z"), .binop "w" i32 .mul (.loc "a") (.loc "a"), .ret (.loc "w")])
+    (mk [.const "z" i32 (.int 0), .binop "a" i32 .add (.loc "x") (.loc "z"), .binop "w" i32 .mul (.loc "x") (.loc "x"), .ret (.loc "w")])
+    = true := by decide
+
+/-- a replacement that is not justified (`y` for `x`) is rejected -/
+example : checkSubst
+    (mk [.binop "w" i32 .mul (.loc "x") (.loc "x"), .ret (.loc "w")])
+    (mk [.binop "w" i32 .mul (.loc "x") (.loc "y"), .ret (.loc "w")]) = false := by decide
 
 end Props.C02
